@@ -91,6 +91,13 @@ MUTANTS = [
     ("C06-setter-keeps-old-timer", "C06", "break", A, "        self._deadline = float(value)\n        if self._timeout_handle is not None:\n            self._timeout_handle.cancel()\n            self._timeout_handle = None\n", "        self._deadline = float(value)\n", "assigning a deadline does not re-arm"),
     ("C06-effective-deadline-break-before-min", "C06", "break", A, "            deadline = min(deadline, cancel_scope.deadline)\n            if cancel_scope._cancel_called:\n                deadline = -math.inf\n                break\n            elif cancel_scope.shield:\n                break\n            else:\n                cancel_scope = cancel_scope._parent_scope", "            if cancel_scope._cancel_called:\n                deadline = -math.inf\n                break\n            elif cancel_scope.shield:\n                break\n            else:\n                deadline = min(deadline, cancel_scope.deadline)\n                cancel_scope = cancel_scope._parent_scope", "a shielded scope's own deadline is dropped from current_effective_deadline()"),
     ("C06-fail-at-tests-cancel-called", "C06", "break", T, "    if cancel_scope.cancelled_caught and current_time() >= cancel_scope.deadline:", "    if cancel_scope.cancel_called and current_time() >= cancel_scope.deadline:", "TimeoutError although the scope did not absorb its own cancellation"),
+    # ---------------------------------------------------------------- C09 / C10 front-end adapters
+    ("C09-lockadapter-aexit-keeps-lock", "C09", "break", S, "        if self._internal_lock is not None:\n            self._internal_lock.release()", "        if self._internal_lock is None:\n            self._lock.release()", "`async with LockAdapter()` never releases the lock it acquired"),
+    ("C09-lockadapter-recreates", "C09", "break", S, "        if self._internal_lock is None:\n            self._internal_lock = get_async_backend().create_lock(\n                fast_acquire=self._fast_acquire\n            )\n\n        return self._internal_lock", "        self._internal_lock = get_async_backend().create_lock(\n            fast_acquire=self._fast_acquire\n        )\n        return self._internal_lock", "every use creates a new backend lock: no mutual exclusion at all"),
+    ("C10-semadapter-stale-value", "C10", "break", S, "        if self._internal_semaphore is None:\n            return self._initial_value\n\n        return self._semaphore.value", "        return self._initial_value", "SemaphoreAdapter.value keeps reporting the initial value"),
+    ("C10-limadapter-release-wrong-borrower", "C10", "break", S, "    def release_on_behalf_of(self, borrower: object) -> None:\n        self._limiter.release_on_behalf_of(borrower)", "    def release_on_behalf_of(self, borrower: object) -> None:\n        self._limiter.release()", "release_on_behalf_of releases the calling task's token instead"),
+    ("C10-limadapter-borrowed-before-use", "C10", "break", S, "        if self._internal_limiter is None:\n            return 0\n\n        return self._internal_limiter.borrowed_tokens", "        if self._internal_limiter is None:\n            return self._total_tokens\n\n        return self._internal_limiter.borrowed_tokens", "an unused limiter reports all tokens as borrowed"),
+    ("C10-semadapter-local-variable", "C10", "harmless", S, "    def release(self) -> None:\n        self._semaphore.release()\n\n    @property\n    def value(self) -> int:", "    def release(self) -> None:\n        sem = self._semaphore\n        sem.release()\n\n    @property\n    def value(self) -> int:", "backend object held in a local first"),
     # ---------------------------------------------------------------- C03 / C05 / C04(b) delivery walk
     ("C03-cancel-skips-delivery", "C03", "break", A, "            if self._host_task is not None:\n                self._deliver_cancellation(self)\n\n    @property\n    def deadline", "            if self._host_task is not None:\n                pass\n\n    @property\n    def deadline", "cancel() only sets the flag, nothing is delivered"),
     ("C03-no-reschedule", "C03", "break", A, "            if should_retry:\n                self._cancel_handle = get_running_loop().call_soon(\n                    self._deliver_cancellation, origin\n                )\n            else:\n                self._cancel_handle = None", "            self._cancel_handle = None", "the delivery callback never reschedules itself"),
